@@ -9,7 +9,7 @@ import time
 import z3
 
 from . import lexcheck
-from .exec import Agg, Cell, EngineError, Exec, Panic, Ref, SrcPtr, SrcSlice, ConstBytes, Violation, is_sym
+from .exec import Agg, BF, Cell, EngineError, Exec, Panic, Ref, SrcPtr, SrcSlice, ConstBytes, Violation, is_sym
 
 RX_USER_CB = re.compile(r'^corpus::\w+::(cb_\w+|\{closure|Tok::\{closure)|^<corpus::\w+::Tok as logos::Logos<.*>>::lex::_(get_action|make_error)::\{closure')
 
@@ -24,6 +24,8 @@ def canon(v):
         return ('srcptr', str(v.off))
     if isinstance(v, ConstBytes):
         return ('const', bytes(b or 0 for b in v.data))
+    if isinstance(v, BF):
+        return ('bf', v.k, v.w, v.tab)
     if is_sym(v):
         return ('sym', v.sexpr())
     if isinstance(v, (int, bool)):
@@ -51,7 +53,7 @@ def step_outcome(ex, d, start, partial=False, module=None):
     ex.events = []
     item = lexcheck.decode_item(ex, out)
     sp = ex.call_root(mod + 'h_span', [lref])
-    s, e = sp.fields[0], sp.fields[1]
+    s, e = ex.concretize(sp.fields[0], 'span start', limit=ex.N + 2), ex.concretize(sp.fields[1], 'span end', limit=ex.N + 2)
     skips = tuple((str(ev[1]), str(ev[2])) for ev in events if ev[0] == 'trivia')
     cbs = tuple((ev[1].split('::')[-1] if False else cb_name(ev[1]), str(ev[2]), str(ev[3])) for ev in events if ev[0] == 'callback')
     if item[0] == 'ok':
